@@ -39,9 +39,12 @@ func (d c15Damage) String() string {
 }
 
 type c15Case struct {
-	File    string      `json:"file"` // "index" | "nonexistent" | "zero-bytes" | "not-bbolt"
+	File    string      `json:"file"` // "index" | "big-index" | "nonexistent" | "zero-bytes" | "not-bbolt" | "dangling-symlink"
 	Damages []c15Damage `json:"damages,omitempty"`
 	History []string    `json:"history"` // open | open-preload | open-cache | open-preload-cache | close | close2 | probe
+	// Spell: how the path is written in the OpenIndex calls: "" canonical absolute, "dot" dir/./file, "rel" relative to the
+	// working directory, "dotdot" dir/sub/../file
+	Spell string `json:"spell,omitempty"`
 }
 
 func (c c15Case) sig() string {
@@ -49,7 +52,11 @@ func (c c15Case) sig() string {
 	for _, x := range c.Damages {
 		d = append(d, x.String())
 	}
-	return fmt.Sprintf("file=%s damages=[%s] history=%s", c.File, strings.Join(d, ","), strings.Join(c.History, ";"))
+	sp := ""
+	if c.Spell != "" {
+		sp = " path-spelling=" + c.Spell
+	}
+	return fmt.Sprintf("file=%s%s damages=[%s] history=%s", c.File, sp, strings.Join(d, ","), strings.Join(c.History, ";"))
 }
 
 type c15Master struct {
@@ -59,6 +66,42 @@ type c15Master struct {
 }
 
 var c15M *c15Master
+
+// c15Big: a valid index with 400 bitmaps; the damages "V*" / "V/2" / "Vlast" hit all of them, every second one, the last one
+// (a loader that handles one bad bitmap may still mishandle hundreds of them).
+var c15Big struct {
+	bytes []byte
+	vkeys [][]byte
+}
+
+func c15BigInit(ctx *rt.Ctx) {
+	if c15Big.bytes != nil {
+		return
+	}
+	var rows []model.Row
+	for i := 0; i < 400; i++ {
+		rows = append(rows, model.Row{"v": fmt.Sprintf("v%03d", i)})
+	}
+	p, _, err := ix.Build(ctx.Scratch, rows, ix.MemFile)
+	if err != nil {
+		rt.Harnessf("build: %v", err)
+	}
+	c15Big.bytes, _ = os.ReadFile(p)
+	db, err := bbolt.Open(p, 0o644, nil)
+	if err != nil {
+		rt.Harnessf("open big master: %v", err)
+	}
+	db.View(func(tx *bbolt.Tx) error {
+		return tx.Bucket([]byte("data")).ForEach(func(k, v []byte) error {
+			if k[0] == 'V' {
+				c15Big.vkeys = append(c15Big.vkeys, append([]byte{}, k...))
+			}
+			return nil
+		})
+	})
+	db.Close()
+	os.Remove(p)
+}
 
 func c15Init(ctx *rt.Ctx) *c15Master {
 	if c15M != nil {
@@ -113,6 +156,32 @@ func c15Make(ctx *rt.Ctx, c c15Case, path string) {
 		return
 	case "not-bbolt":
 		os.WriteFile(path, bytes.Repeat([]byte{0xAB}, 1024), 0o644)
+		return
+	}
+	if c.File == "big-index" {
+		c15BigInit(ctx)
+		os.WriteFile(path, c15Big.bytes, 0o644)
+		db, err := bbolt.Open(path, 0o644, nil)
+		if err != nil {
+			rt.Harnessf("damage: %v", err)
+		}
+		err = db.Update(func(tx *bbolt.Tx) error {
+			b := tx.Bucket([]byte("data"))
+			for _, d := range c.Damages {
+				for i, k := range c15Big.vkeys {
+					if d.Part == "V*" || (d.Part == "V/2" && i%2 == 1) || (d.Part == "Vlast" && i == len(c15Big.vkeys)-1) {
+						if err := b.Put(k, bytes.Repeat([]byte{0xDE, 0xAD, 0xBE, 0xEF}, 5)); err != nil {
+							return err
+						}
+					}
+				}
+			}
+			return nil
+		})
+		if err != nil {
+			rt.Harnessf("damage: %v", err)
+		}
+		db.Close()
 		return
 	}
 	os.WriteFile(path, m.bytes, 0o644)
@@ -178,6 +247,10 @@ func c15MustError(c c15Case, preload bool) string {
 	}
 	for _, d := range c.Damages {
 		switch {
+		case c.File == "big-index":
+			if preload {
+				return "undecodable bitmap(s) while preloading"
+			}
 		case d.Part == "bucket" && d.Kind == "removed":
 			return "no data bucket"
 		case d.Part == "S" && (d.Kind == "removed" || d.Kind == "empty" || d.Kind == "trunc" || d.Kind == "garbage"):
@@ -208,6 +281,20 @@ func c15Play(ctx *rt.Ctx, c c15Case) (viol string, outcome string) {
 	path := filepath.Join(ctx.Scratch, fmt.Sprintf("c15-%d.updog", c15Seq))
 	c15Make(ctx, c, path)
 	defer os.Remove(path)
+	opath := path // the spelling used in the OpenIndex calls
+	switch c.Spell {
+	case "dot":
+		opath = filepath.Dir(path) + "/./" + filepath.Base(path)
+	case "dotdot":
+		os.MkdirAll(filepath.Join(filepath.Dir(path), "sub"), 0o755)
+		opath = filepath.Dir(path) + "/sub/../" + filepath.Base(path)
+	case "rel":
+		if wd, err := os.Getwd(); err == nil {
+			if r, err := filepath.Rel(wd, path); err == nil {
+				opath = r
+			}
+		}
+	}
 	flk.Sequential(true)
 	defer flk.Sequential(false)
 	old := debug.SetGCPercent(-1)
@@ -239,14 +326,14 @@ func c15Play(ctx *rt.Ctx, c c15Case) (viol string, outcome string) {
 					return // not enabled: a second open while the first handle is live is expected to wait (exclusive lock)
 				}
 				opts, preload := c15Opts(op)
-				x, err := updog.OpenIndex(path, opts...)
+				x, err := updog.OpenIndex(opath, opts...)
 				outcome += fmt.Sprintf("%s:%v;", op, err == nil)
 				if err != nil {
 					if x != nil {
 						v = fmt.Sprintf("step %d %s returned an error together with an index", n+1, op)
 						return
 					}
-					if c.File == "index" && len(c.Damages) == 0 {
+					if (c.File == "index" || c.File == "big-index") && len(c.Damages) == 0 {
 						v = fmt.Sprintf("step %d %s of a valid index failed: %v", n+1, op, err)
 						return
 					}
@@ -401,6 +488,25 @@ func c15Worker(ctx *rt.Ctx, job *rt.Job) []*rt.Violation {
 			cases = append(cases, c15Case{File: "index", Damages: ds, History: h})
 		}
 	}
+	// a 400-bitmap index: intact, and with all / every second / the last bitmap undecodable
+	for _, part := range []string{"", "V*", "V/2", "Vlast"} {
+		for _, h := range hs {
+			c := c15Case{File: "big-index", History: h}
+			if part != "" {
+				c.Damages = []c15Damage{{Part: part, Kind: "garbage"}}
+			}
+			cases = append(cases, c)
+		}
+	}
+	// the path written in other ways than the canonical absolute one (what is registered under one spelling must be
+	// released under the same one): the intact index and three rejected files
+	for _, sp := range []string{"dot", "dotdot", "rel"} {
+		for _, ds := range [][]c15Damage{nil, {{Part: "S", Kind: "removed"}}, {{Part: "I", Kind: "garbage"}}, {{Part: "V0", Kind: "garbage"}}} {
+			for _, h := range hs {
+				cases = append(cases, c15Case{File: "index", Damages: ds, History: h, Spell: sp})
+			}
+		}
+	}
 	firstBy := map[string]bool{}
 	var vs []*rt.Violation
 	for i, c := range cases {
@@ -410,7 +516,7 @@ func c15Worker(ctx *rt.Ctx, job *rt.Job) []*rt.Violation {
 		viol, outcome := c15Play(ctx, c)
 		ctx.Cov.Add("evaluations", 1)
 		ctx.Cov.SetAdd("outcomes", outcome)
-		if len(c.Damages) > 0 || c.File != "index" {
+		if len(c.Damages) > 0 || c.File != "index" || c.Spell != "" {
 			ctx.Cov.Add("distinct_nontrivial", 1)
 		}
 		if viol != "" {
@@ -435,7 +541,7 @@ func c15Worker(ctx *rt.Ctx, job *rt.Job) []*rt.Violation {
 		}
 	}
 	if job.Shard == 0 {
-		ctx.Cov.Note("space", fmt.Sprintf("%d files (nonexistent, 0 bytes, non-bbolt bytes, and %d damaged variants of a valid 3-row index: bucket removed; full product of {intact,removed,empty,garbage} over schema, row counter and every bitmap; every truncation of every part; %s) x %d open/close histories over options {on-demand, preloaded, cached, preloaded+cached}", 3+len(sets), len(sets), map[bool]string{true: "every single-byte flip of every part", false: "byte flips only in the thorough tier"}[ctx.Thorough()], len(hs)))
+		ctx.Cov.Note("space", fmt.Sprintf("%d files (nonexistent, 0 bytes, non-bbolt bytes, and %d damaged variants of a valid 3-row index: bucket removed; full product of {intact,removed,empty,garbage} over schema, row counter and every bitmap; every truncation of every part; %s; a 400-bitmap index intact and with all / every second / the last bitmap undecodable; the intact and three rejected files addressed through non-canonical path spellings dir/./f, dir/sub/../f and a relative path) x %d open/close histories over options {on-demand, preloaded, cached, preloaded+cached}", 3+len(sets), len(sets), map[bool]string{true: "every single-byte flip of every part", false: "byte flips only in the thorough tier"}[ctx.Thorough()], len(hs)))
 	}
 	return vs
 }
